@@ -320,6 +320,22 @@ def prop_c03(off, k, cs):
         return f"FAIL independent parser rejects the writer's output: {e}"
     if [(d, p, a) for d, p, a in back] != spec:
         return "FAIL independent parser recovers different fields"
+    # the same objects again: another key and offset, the components in a second file in reverse order, then the first call
+    # once more - nothing remembered from the earlier serialisations
+    fobj = Bf3File({}, comps)
+    key2 = bytes(b ^ 0xA5 for b in key)
+    for kk, oo, cc, sp in ((key, off, comps, spec), (key2, off + 7, comps, None), (key, off, comps[::-1], None), (key, off, comps, spec)):
+        if sp is None:
+            sp = [(list(c.description.items()),
+                   refaes.cbc_encrypt(kk, bytes(16), refaes.zero_pad(c.blob)) if c.encrypt_by_session_key else c.blob, c.actual_len)
+                  for c in cc]
+        try:
+            got = (fobj if cc is comps else Bf3File({}, cc)).to_binary(oo, kk)
+        except Exception as e:
+            return f"FAIL serialising the same component objects again raises {type(e).__name__}"
+        if got != layout.serialize(kk, oo, sp):
+            return ("FAIL a later serialisation of the same objects (other key / offset / order) differs from the documented layout: "
+                    "state kept on the file or component objects")
     # the text writer with an explicit session key writes the same container after the signature
     s = io.StringIO()
     Bf3File({}, parse_comps(cs)).write_file(s, key)
